@@ -64,6 +64,27 @@ func (fd *FuncDoc) getKeyArg(name string) *DocArg {
 	return nil
 }
 
+// otherKeyAllowed returns true if a keyword argument that does not name a
+// &key parameter is acceptable: the keyword is :allow-other-keys itself, the
+// lambda list includes &allow-other-keys or the keyword arguments of the call,
+// keyArgs, include :allow-other-keys with a true value (the first one counts).
+func (fd *FuncDoc) otherKeyAllowed(name string, keyArgs List) bool {
+	if strings.EqualFold(name, "allow-other-keys") {
+		return true
+	}
+	for _, a := range fd.Args {
+		if strings.EqualFold(a.Name, AmpAllowOtherKeys) {
+			return true
+		}
+	}
+	for i := 0; i+1 < len(keyArgs); i += 2 {
+		if sym, ok := keyArgs[i].(Symbol); ok && strings.EqualFold(string(sym), ":allow-other-keys") {
+			return keyArgs[i+1] != nil
+		}
+	}
+	return false
+}
+
 // LoadForm return a argument list for function or lambda args list.
 func (fd *FuncDoc) LoadForm() Object {
 	dl := make(List, len(fd.Args))
